@@ -39,6 +39,8 @@ pub struct Var {
     pub omit_id: bool,
     pub omit_type: bool,
     pub extra_attr: Option<String>,
+    /// attribute front end only: which of the 6 orders of #[id] #[data_type] #[doc_path] the variant carries (0 = that one)
+    pub attr_order: u8,
 }
 
 #[derive(Clone, Debug, PartialEq, Eq, Hash)]
@@ -73,6 +75,7 @@ pub fn decl_from_spec(spec: &SpecTable, name: &str, hex_ids: bool) -> Decl {
             omit_id: false,
             omit_type: false,
             extra_attr: None,
+            attr_order: 0,
         })
         .collect();
     Decl { name: name.to_string(), vars, hex_ids }
@@ -99,14 +102,13 @@ fn lit(d: &Decl, id: u64) -> String {
 pub fn render_attr(d: &Decl) -> String {
     let mut s = format!("#[derive(Clone, Debug, PartialEq)]\npub enum {} {{\n", d.name);
     for v in &d.vars {
-        if !v.omit_id {
-            s.push_str(&format!("    #[id({})]\n", lit(d, v.id)));
-        }
-        if !v.omit_type {
-            s.push_str(&format!("    #[data_type(TagDataType::{})]\n", v.ty_text.clone().unwrap_or(v.ty.name().to_string())));
-        }
-        if !v.path.is_empty() {
-            s.push_str(&format!("    #[doc_path({})]\n", render_pp(&v.path)));
+        let id_attr = if !v.omit_id { format!("    #[id({})]\n", lit(d, v.id)) } else { String::new() };
+        let ty_attr = if !v.omit_type { format!("    #[data_type(TagDataType::{})]\n", v.ty_text.clone().unwrap_or(v.ty.name().to_string())) } else { String::new() };
+        let path_attr = if !v.path.is_empty() { format!("    #[doc_path({})]\n", render_pp(&v.path)) } else { String::new() };
+        const ORDERS: [[usize; 3]; 6] = [[0, 1, 2], [0, 2, 1], [1, 0, 2], [1, 2, 0], [2, 0, 1], [2, 1, 0]];
+        let parts = [id_attr, ty_attr, path_attr];
+        for k in ORDERS[(v.attr_order % 6) as usize] {
+            s.push_str(&parts[k]);
         }
         if let Some(a) = &v.extra_attr {
             s.push_str(&format!("    #[{}]\n", a));
@@ -358,7 +360,20 @@ pub fn check_meaning(d: &Decl, it: &Interp) -> Result<u64, String> {
 pub fn gen_decl(t: &mut Tape) -> (Decl, SpecTable) {
     let spec = gen_spec(t, SpecOpts { builtins: false, ..SpecOpts::default() });
     let hex = t.chance(1, 2);
-    (decl_from_spec(&spec, "Gen", hex), spec)
+    let mut d = decl_from_spec(&spec, "Gen", hex);
+    // neither the order of a variant's attributes nor the order of the variants is part of the declaration's meaning
+    if t.chance(1, 2) {
+        for v in d.vars.iter_mut() {
+            v.attr_order = t.below(6) as u8;
+        }
+    }
+    if t.chance(1, 3) {
+        for k in (1..d.vars.len()).rev() {
+            let j = t.below(k + 1);
+            d.vars.swap(k, j);
+        }
+    }
+    (d, spec)
 }
 
 fn stage_valid(i: &Input, c: &mut Case) -> Result<(), String> {
@@ -375,6 +390,8 @@ fn stage_valid(i: &Input, c: &mut Case) -> Result<(), String> {
     c.label_if(placeholder, "has_placeholder");
     c.label_if(spec.elems.iter().any(|e| e.path.len() > 1 && matches!(e.path[e.path.len() - 1], PathPart::Id(_)) && e.path.iter().any(|p| matches!(p, PathPart::Global(_)))), "intermediate_placeholder");
     c.label_if(depth >= 3, "depth3plus");
+    c.label_if(d.vars.iter().any(|v| v.attr_order != 0 && !v.path.is_empty()), "attributes_in_another_order");
+    c.label_if(d.vars.iter().enumerate().any(|(k, v)| v.path.iter().any(|p| matches!(p, PP::Name(n) if d.vars[k + 1..].iter().any(|w| &w.name == n)))), "child_declared_before_parent");
     let a = expand_attribute(&a_src);
     let e = expand_easy(&e_src);
     let (at, et) = match (&a, &e) {
@@ -580,6 +597,8 @@ pub fn run(rc: &mut RunCtx) {
     rc.run_pt(STAGES[1], rc.pick(8_000, 300_000), (96, 300));
     rc.require_label("valid_in_process", "has_placeholder", 300_000);
     rc.require_label("valid_in_process", "intermediate_placeholder", 50_000);
+    rc.require_label("valid_in_process", "attributes_in_another_order", 100_000);
+    rc.require_label("valid_in_process", "child_declared_before_parent", 50_000);
     for b in BREAKS {
         rc.require_label("broken_in_process", b, 10_000);
     }
